@@ -20,6 +20,17 @@
 (*                                  whose first paragraph has mixed inline *)
 (*                                  content (two tokens: text + symbol in  *)
 (*                                  one run | text + span)                 *)
+(*    S  (children, sty, lvl)       paragraph styled with style number sty *)
+(*                                  of the document's style sheet; whether *)
+(*                                  it is a heading, and of which level,   *)
+(*                                  follows from the sheet (see HeadOf)    *)
+(* The style sheet is a sequence of styles [decl, lvl, based]: decl says    *)
+(* what the style itself declares about being a heading (none | builtin =  *)
+(* id HeadingN + name "heading N" + outline level | nameL / nameU = name    *)
+(* "heading N" / "Heading N" only | outline = outline level only | bare =   *)
+(* ODT heading style name without default-outline-level), based is the      *)
+(* style it is based on: k = style k of the sheet, 0 = none, -1 = the       *)
+(* default style (Normal / Standard), -2 = a style that is not defined.     *)
 (* A child is [w, a]: w = the wrapper (r = plain run / bare text, span,    *)
 (* link, ins, sdt), a = the sequence of atoms inside it, atoms from        *)
 (* {t, sym, tab, br, s}.  t and sym carry a token; tokens are numbered     *)
@@ -55,6 +66,36 @@ Wrappers(f) == IF f = "docx" THEN {"r", "span", "link", "ins", "sdt"} ELSE {"r",
 Atoms(f)    == IF f = "docx" THEN {"t", "sym", "tab", "br"} ELSE {"t", "tab", "br", "s"}
 Hows        == {"builtin", "custom1", "custom2", "outline"}
 Bearing(a)  == a \in {"t", "sym"}
+
+Decls       == {"none", "builtin", "nameL", "nameU", "outline", "bare"}
+
+\* ----------------------------------------------------------- style sheets
+\* does the basedOn / parent-style chain starting at style s run into a cycle ?
+RECURSIVE Cyclic(_, _, _)
+Cyclic(sh, cur, seen) == IF cur < 1 THEN FALSE
+                         ELSE IF cur \in seen THEN TRUE
+                         ELSE Cyclic(sh, sh[cur].based, seen \cup {cur})
+
+\* DOCX (ECMA-376 17.7.4.3, 17.3.1.20): the heading level a paragraph of style s has -
+\* the nearest declaration along the basedOn chain wins (the outline level is inherited like
+\* every paragraph property; the built-in heading styles are known by their name).
+\* 0 = not a heading, -1 = unconstrained (the chain is cyclic, i.e. the sheet is invalid,
+\* or it ends in a style that is not defined before any style declared a level).
+RECURSIVE Nearest(_, _)
+Nearest(sh, cur) == IF cur = -2 THEN -1
+                    ELSE IF cur < 1 THEN 0
+                    ELSE IF sh[cur].decl # "none" THEN sh[cur].lvl
+                    ELSE Nearest(sh, sh[cur].based)
+HeadOf(sh, s) == IF Cyclic(sh, s, {}) THEN -1 ELSE Nearest(sh, s)
+
+SheetOK(f, sh) ==
+    /\ \A i \in 1..Len(sh) :
+          /\ sh[i].decl \in (IF f = "docx" THEN Decls \ {"bare"} ELSE {"none", "builtin", "bare", "outline"})
+          /\ sh[i].lvl \in 1..4
+          /\ sh[i].based \in {-2, -1, 0} \cup (1..Len(sh))
+    \* style ids and names are unique: a built-in heading identity occurs at most once
+    /\ \A i, j \in 1..Len(sh) : (i # j /\ sh[i].decl \in {"builtin", "nameL", "nameU", "bare"}
+                                      /\ sh[j].decl \in {"builtin", "nameL", "nameU", "bare"}) => sh[i].lvl # sh[j].lvl
 
 Sum(s) == FoldLeft(LAMBDA x, y : x + y, 0, s)
 InS(x, s) == \E i \in 1..Len(s) : s[i] = x
@@ -108,7 +149,7 @@ NTok(b) == IF b.k = "TBL"
            ELSE NBear(FlatCh(b.ch))
 
 BlockOK(f, b) ==
-    /\ b.k \in {"P", "H", "LI", "TBL"}
+    /\ b.k \in {"P", "H", "LI", "TBL", "S"}
     /\ b.k = "TBL" => TblOK(b.tb) /\ b.ch = <<>>
     /\ b.k # "TBL" =>
           /\ b.tb = NoTbl
@@ -119,6 +160,8 @@ BlockOK(f, b) ==
           /\ NTok(b) >= 1                       \* no token-less paragraphs
     /\ b.k = "H" => b.lvl \in 1..6 /\ b.how \in Hows
     /\ b.k = "LI" => b.lvl \in 0..8 /\ b.num \in {"bullet", "decimal"}
+    /\ b.k = "S" => b.lvl \in 1..4
+    /\ b.k # "S" => b.sty = 0
 
 \* list items: a run of items of one list starts at depth 0 and deepens by at
 \* most one level per item (so the nested ODF rendering needs no empty item)
@@ -133,6 +176,15 @@ IsDoc(d) ==
     /\ d.hdr \in {0, 1} /\ d.ftr \in {0, 1}
     /\ \A i \in 1..Len(d.body) : BlockOK(d.fmt, d.body[i])
     /\ ListOK(d.body)
+    /\ SheetOK(d.fmt, d.sheet)
+    \* a document with a sheet of its own defines exactly the styles of the sheet: its other
+    \* headings are declared by a direct outline level, not by the fixed heading styles
+    /\ d.sheet # <<>> => \A i \in 1..Len(d.body) : d.body[i].k = "H" => d.body[i].how = "outline"
+    /\ \A i \in 1..Len(d.body) : d.body[i].k = "S" =>
+          /\ d.body[i].sty \in 1..Len(d.sheet)
+          \* ODT: the heading is a text:h whose text:outline-level is lvl; the styles of the
+          \* sheet that declare a level declare the same one (no conflicting documents)
+          /\ d.fmt = "odt" => \A j \in 1..Len(d.sheet) : d.sheet[j].lvl = d.body[i].lvl
 
 Bases(body) == [i \in 1..Len(body) |-> Sum([j \in 1..(i - 1) |-> NTok(body[j])])]
 
@@ -152,6 +204,14 @@ Item(d, i) ==
                      rs |-> IF InS(an[q], b.tb.vm) THEN 2 ELSE 1,
                      cs |-> IF InS(an[q], b.tb.hm) THEN 2 ELSE 1,
                      ids |-> [j \in 1..NCell(b.tb, an[q]) |-> base + off[q] + j]]]]
+       ELSE IF b.k = "S"
+       THEN LET h == IF d.fmt = "docx" THEN HeadOf(d.sheet, b.sty)
+                     \* ODT: text:outline-level of the text:h decides (ODF 1.2 5.1.2); an
+                     \* invalid sheet (cycle, undefined parent) leaves the result open
+                     ELSE IF HeadOf(d.sheet, b.sty) = -1 THEN -1 ELSE b.lvl
+            IN [k |-> IF h = -1 THEN "PH" ELSE IF h = 0 THEN "P" ELSE "H",
+                lvl |-> IF h < 1 THEN 0 ELSE h, ids |-> ids,
+                gaps |-> GapsOf(FlatCh(b.ch)), rows |-> 0, cols |-> 0, cells |-> <<>>]
        ELSE [k |-> b.k, lvl |-> IF b.k = "P" THEN 0 ELSE b.lvl, ids |-> ids,
              gaps |-> GapsOf(FlatCh(b.ch)), rows |-> 0, cols |-> 0, cells |-> <<>>]
 
@@ -168,8 +228,9 @@ EmitP   == EmitKind("P")
 EmitH   == EmitKind("H")
 EmitLI  == EmitKind("LI")
 EmitTbl == EmitKind("TBL")
+EmitSty == EmitKind("S")
 
-Next == EmitP \/ EmitH \/ EmitLI \/ EmitTbl
+Next == EmitP \/ EmitH \/ EmitLI \/ EmitTbl \/ EmitSty
 
 Spec == Init /\ [][Next]_vars
 
@@ -186,7 +247,8 @@ Order == AllIds(out) = [i \in 1..Len(AllIds(out)) |-> i]
 
 \* every block is presented as what it is, where it is
 Structure == \A i \in 1..pos :
-                /\ out[i].k = doc.body[i].k
+                /\ doc.body[i].k # "S" => out[i].k = doc.body[i].k
+                /\ doc.body[i].k = "S" => out[i].k \in {"P", "H", "PH"} /\ (out[i].k = "H" <=> out[i].lvl >= 1)
                 /\ doc.body[i].k \in {"H", "LI"} => out[i].lvl = doc.body[i].lvl
                 /\ Len(out[i].ids) = NTok(doc.body[i])
                 /\ Len(out[i].gaps) = (IF doc.body[i].k = "TBL" THEN 0 ELSE Len(out[i].ids) - 1)
